@@ -50,7 +50,9 @@ Int2 == Int1 \cup {Bin("sub", Bin("sub", a, b), c) : a \in {PV("n", "Int")}, b \
              \cup {Bin("sub", a, Bin("sub", b, c)) : a \in {PV("n", "Int")}, b \in {N(7)}, c \in Int0}
              \cup {Bin("add", Un("negate", a), Bin("property", SrcDatum, N(0))) : a \in Int0}
 
-Asset0 == {Ada(N(5)), Ada(PV("n", "Int")), Tok(N(2)), Fees, SrcAssets, Un("c_min_utxo", N(0))}
+\* incl. assets whose class (policy or name) is a parameter while the amount is a literal
+ParamClass == {AssetsOf(PV("pol", "Bytes"), B(<<97>>), N(2)), AssetsOf(PolicyA, PV("b", "Bytes"), N(3))}
+Asset0 == {Ada(N(5)), Ada(PV("n", "Int")), Tok(N(2)), Fees, SrcAssets, Un("c_min_utxo", N(0))} \cup ParamClass
 Asset1 == Asset0
           \cup {Bin(o, a, b) : o \in {"add", "sub"}, a \in Asset0, b \in Asset0}
           \cup {Un("negate", a) : a \in {Tok(N(2)), Fees}}
@@ -120,7 +122,7 @@ SrcUtxo == [ref |-> [txid |-> [i \in 1..32 |-> 9], index |-> 0], address |-> A0,
             assets |-> <<[c |-> Naked, n |-> FromInt(5000000)],
                          [c |-> Defined(PolicyA.v, <<97>>), n |-> FromInt(10)]>>,
             datum |-> Struct(0, <<N(11), B(<<5, 6>>)>>)]
-StdEnv == [args |-> [n |-> N(42), b |-> B(<<3, 4>>), i |-> N(1), owner |-> Addr(A0),
+StdEnv == [args |-> [n |-> N(42), b |-> B(<<3, 4>>), i |-> N(1), owner |-> Addr(A0), pol |-> PolicyA,
                      r |-> [k |-> "utxo_refs", refs |-> <<[txid |-> <<8, 8>>, index |-> 2]>>]],
            inputs |-> [src |-> [k |-> "utxo_set", utxos |-> <<SrcUtxo>>]],
            fee |-> FromInt(170000),
